@@ -9,7 +9,9 @@
 
    The model follows the code after the repairs recorded in known_findings.json:
    CheckDescriptor mismatches carry DIGEST_INVALID / SIZE_INVALID and PushBlob keeps them
-   (finding 17), refersTo walks a child manifest with its stored media type (finding 11). *)
+   (finding 17), refersTo walks a child manifest with its stored media type (finding 11),
+   under ImmutableTags PushManifest refuses to re-store a digest under another media type
+   (C14 fix ocimem-immutable-media-type). *)
 From Coq Require Import String.
 From OCI Require Export Base.AList Base.BytesSort Model.Iface.
 
@@ -363,6 +365,14 @@ Section Mem.
                 let dig := hash data in
                 let de := {| d_media := media; d_digest := dig; d_size := blen data; d_artifact := [] |} in
                 let store (_ : unit) :=
+                  (* immutable tags: a stored manifest keeps the media type it was stored with *)
+                  if immutable_tags cfg
+                     && match alookup dig (manifests rp) with
+                        | Some cur => negb (beqb (b_media cur) media)
+                        | None => false
+                        end
+                  then (st1, Err (E DENIED (s "mismatched media type")))
+                  else
                   match check_descriptor de (Some data) with
                   | Some e => (st1, Err (e_plain (s "invalid descriptor")))
                   | None =>
